@@ -208,6 +208,8 @@ class Pool:
             except Exception:  # queue.Empty
                 kind = None
             now = time.time()
+            if kind is not None and wid not in self.workers:
+                continue          # late message of a worker that was already killed and replaced
             if kind == "start":
                 self.running[wid] = (idx, now)
             elif kind in ("done", "error"):
@@ -218,7 +220,10 @@ class Pool:
                 feed()
             # deadlines and dead workers
             for wid, (idx, st) in list(self.running.items()):
-                p = self.workers[wid]
+                p = self.workers.get(wid)
+                if p is None:
+                    self.running.pop(wid, None)
+                    continue
                 if now - st > self.item_timeout or not p.is_alive():
                     why = "timeout" if p.is_alive() else "worker-died"
                     try:
